@@ -377,6 +377,11 @@ def call_pymeth(ex, o, name, args, kw):
         if name == 'format':
             return FStr([o] + [(a, None) for a in args])
         raise Unsupported(f'str.{name}')
+    if isinstance(o, (dict, list, set)) and name in ('pop', 'popitem', 'update', 'setdefault', 'clear', 'append', 'extend', 'insert', 'remove', 'sort', 'reverse', 'add', 'discard', '__setitem__', '__delitem__'):
+        hit = [k for k, mv in ex.modcache.items() if mv is o]
+        if hit:
+            # a module-level container is being mutated: hidden state that survives the call
+            ex.event('module_state_write', hit[0], ex.where())
     if isinstance(o, dict):
         if name == 'get':
             k = args[0]
@@ -390,7 +395,12 @@ def call_pymeth(ex, o, name, args, kw):
         if name == 'pop':
             return o.pop(*args)
         if name == 'update':
-            o.update(*args)
+            o.update(*args, **kw)
+            return None
+        if name == 'setdefault':
+            return o.setdefault(*args)
+        if name == 'clear':
+            o.clear()
             return None
         raise Unsupported(f'dict.{name}')
     if isinstance(o, list):
